@@ -77,7 +77,17 @@ def check_tree(d, timeout_ms=10000):
         r = expr_simp(e2)
         signal.alarm(0)
     except _Timeout:
-        return ('failed', 'terminates', 'expr_simp did not return within 5 s (bounded observation)', {'desc': d, 'val': None, 'raise': True})
+        # a second, patient attempt on a fresh copy before non-termination is claimed (bounded observation: 60 s, more on a busy machine)
+        e2 = gen.build(d)
+        signal.alarm(common.patience(60))
+        try:
+            r = expr_simp(e2)
+            signal.alarm(0)
+        except _Timeout:
+            return ('failed', 'terminates', 'expr_simp did not return within %d s (bounded observation)' % common.patience(60), {'desc': d, 'val': None, 'raise': True})
+        except Exception as ex:
+            signal.alarm(0)
+            return ('failed', 'noraise', 'expr_simp raised %s: %s' % (type(ex).__name__, ex), {'desc': d, 'val': None, 'raise': True})
     except RecursionError:
         signal.alarm(0)
         return ('failed', 'terminates', 'expr_simp: RecursionError', {'desc': d, 'val': None, 'raise': True})
@@ -99,7 +109,16 @@ def check_tree(d, timeout_ms=10000):
         try:
             r3 = expr_simp(e3)
         except _Timeout:
-            return ('failed', 'terminates', 'expr_simp (shared nodes) did not return within 5 s', {'desc': d, 'val': None, 'raise': True, 'shared': True})
+            e3 = gen.build_shared(d)
+            signal.alarm(common.patience(60))
+            try:
+                r3 = expr_simp(e3)
+                signal.alarm(0)
+            except _Timeout:
+                return ('failed', 'terminates', 'expr_simp (shared nodes) did not return within %d s' % common.patience(60), {'desc': d, 'val': None, 'raise': True, 'shared': True})
+            except Exception as ex:
+                signal.alarm(0)
+                return ('failed', 'noraise', 'expr_simp (shared nodes) raised %s: %s' % (type(ex).__name__, ex), {'desc': d, 'val': None, 'raise': True, 'shared': True})
         except Exception as ex:
             return ('failed', 'noraise', 'expr_simp (shared nodes) raised %s: %s' % (type(ex).__name__, ex), {'desc': d, 'val': None, 'raise': True, 'shared': True})
         finally:
